@@ -934,6 +934,12 @@ m("c07-selector-slice-unguarded", "C07", "precompiles/distribution/distribution.
 m("c09-merge-lowers-tracked-delegation", "C09", "x/vesting/keeper/msg_server.go",
   "sdk.MaxInt(trackedAmt, delegatedAmt)", "sdk.MinInt(trackedAmt, delegatedAmt)",
   "tracked-delegation-not-lowered", "the merge overwrites the tracking with the current figure alone")
+m("c12-genesis-duplicates-by-spelling", "C12", "x/ucdao/types/genesis.go",
+  "\t\tholder := balance.GetAddress().String()\n", "\t\tholder := balance.Address\n",
+  "duplicates-by-decoded-address", "duplicate holders are recognised by spelling only")
+m("c12-initgenesis-skips-validation", "C12", "x/ucdao/keeper/genesis.go",
+  "\tif err := genState.Validate(); err != nil {\n\t\tpanic(fmt.Errorf(\"invalid ucdao genesis: %w\", err))\n\t}\n", "",
+  "validates-before-writing", "InitGenesis no longer validates")
 for prop in ("C16", "C07"):
     m("c%s-gas-meter-without-precharge" % prop[1:], prop, "precompiles/common/precompile.go",
       "sdk.NewGasMeter(initialGas + contract.Gas)", "sdk.NewGasMeter(contract.Gas)",
